@@ -53,6 +53,12 @@ impl DetectProp for C09 {
         if idx % 6 == 3 {
             c = shared_high_bytes_case(rng);
         }
+        if idx % 12 == 5 {
+            c = declared_fallback_case(rng);
+        }
+        if idx % 12 == 11 {
+            c = declared_tied_case(rng);
+        }
         c
     }
     fn directed(&self, thorough: bool) -> Vec<Case> {
